@@ -380,26 +380,22 @@ func checkSafety(k *mkey, out []byte) {
 }
 
 func monitorDiscard(ts int64, n int) {
-	must, may := 0, 0
+	// Only keys that are certainly stored are counted: honest, incomplete, never in doubt.
+	// (Hostile keys may have been dropped by the defragmenter already; the monitor must not
+	// demand more than the property states.)
+	must := 0
 	for kk, k := range mon {
+		certain := k.honest && !k.complete && !k.unknown && len(k.frags) > 0
 		switch {
 		case k.lastAny < ts:
-			must++
-			may++
-			if k.unknown {
-				must--
+			if certain {
+				must++
 			}
 			delete(mon, kk)
 		case k.lastNew < ts:
-			may++
-			k.unknown = true
-		default:
-			if k.unknown {
-				may++
-			}
+			k.unknown = true // only duplicates since the cut-off: unspecified whether that is "activity"
 		}
 	}
-	_ = may
 	if n < must {
 		lib.Finding("C13", "frag4:discard-keeps-old", fmt.Sprintf("DiscardOlderThan removed %d entries, at least %d are older than the cut-off", n, must))
 	}
